@@ -506,6 +506,60 @@ def spawn_observed(resp):
 
 
 
+# ------------------------------------------------------------------ launchers: closures over private state, started as threads
+
+def gen_launch(rng):
+    return {"form": rng.choice(["spawn", "go", "fnspawn"]), "wide": rng.choice([0, 0, 3, 9, 12]), "calls": 2 + rng.below(2),
+            "bases": [1000 * (i + 1) + rng.below(100) for i in range(4)], "per": 1 + rng.below(3), "nested": rng.chance(1, 3)}
+
+
+def launch_script(sc):
+    """a launcher function (optionally with many locals: frames beyond 8 locals are stored differently) builds a closure over
+    ITS OWN locals and starts it as a thread; it is called several times before any of the threads runs on"""
+    L = ["out := chan(64)", "gate := chan()"]
+    locs = "".join("w%d := base + %d; " % (i, 100 + i) for i in range(sc["wide"]))
+    sends = "; ".join("out <- (a + %d)" % i for i in range(sc["per"]))     # the value of a send binds tighter than +
+    extra = " + ".join(["a"] + ["w%d" % i for i in range(min(sc["wide"], 2))])
+    body = "<-gate; %s; return %s" % (sends, extra)
+    if sc["nested"]:
+        inner = "func() { g := func() { %s }; return g() }" % body
+    else:
+        inner = "func() { %s }" % body
+    if sc["form"] == "spawn":
+        start = "return spawn(f)"
+    elif sc["form"] == "fnspawn":
+        start = "return f.spawn()"
+    else:
+        start = "go f(); return nil"
+    L.append("func launch(base) { %sa := base; f := %s; %s }" % (locs, inner, start))
+    L.append("ts := []")
+    for k in range(sc["calls"]):
+        L.append("ts.append(launch(%d))" % sc["bases"][k])
+    for k in range(sc["calls"]):
+        L.append("gate <- 1")
+    L.append("r := []")
+    L.append("for i := range %d { r.append(<-out) }" % (sc["calls"] * sc["per"]))
+    L.append('rec2("w", 0, sorted(r))')
+    if sc["form"] != "go":
+        L.append('rec2("w", 1, ts.map(func(t) { return t.wait() }))')
+    L.append('"done"')
+    return "\n".join(L)
+
+
+def launch_oracle(sc, resp):
+    if resp.get("error"):
+        return "evaluation failed: %s" % resp["error"]
+    logs = dict((k, v) for k, v in resp["logs"].get("w", []))
+    want = sorted(b + i for b in sc["bases"][:sc["calls"]] for i in range(sc["per"]))
+    if logs.get(0) != want:
+        return "the threads sent %r; each closure captured its own launcher call's locals, so they send %r" % (logs.get(0), want)
+    if sc["form"] != "go":
+        ww = [b + sum(b + 100 + i for i in range(min(sc["wide"], 2))) for b in sc["bases"][:sc["calls"]]]
+        if logs.get(1) != ww:
+            return "wait() gave %r; the spawned calls returned %r" % (logs.get(1), ww)
+    return None
+
+
 # ------------------------------------------------------------------ running the two sides
 
 def run_impl(exe, reqs, timeout):
@@ -848,6 +902,28 @@ def _body(res, tier, obs, model, proved):
         if k < 2:
             samples.append(dict(case, impl=got, model=exp))
     stats["D_spawn"] = {"cases": len(scs), "agree": dagree}
+
+    # ---------------- D2: launchers (closures over private state started as threads; oracle only)
+    nl = 300 if quick else 5000
+    lcs = [gen_launch(rng) for _ in range(nl)]
+    reqs = [{"id": "L%d" % k, "src": launch_script(sc), "procs": [1, 2, 16][k % 3], "yield": 0, "timeout_ms": 5000}
+            for k, sc in enumerate(lcs)]
+    lres, fails = run_impl_sharded(obs, reqs, C.NCPU, 600)
+    lok = 0
+    for k, sc in enumerate(lcs):
+        st["evals"] += 1
+        r = lres.get("L%d" % k)
+        case = {"stage": "D2-launch", "scenario": sc}
+        if r is None:
+            corr.append(dict(case, impl="no answer"))
+            continue
+        why = launch_oracle(sc, r)
+        if why:
+            oracle_viol.append(dict(case, impl=r.get("logs"), why=why, src=launch_script(sc)))
+        else:
+            lok += 1
+        nontrivial.add(("L", json.dumps(sc, sort_keys=True)))
+    stats["D2_launch"] = {"cases": len(lcs), "ok": lok}
 
     if fresh_violation():
         return finish()
